@@ -6,6 +6,15 @@ PLANS = {
         mc=[], gen=[], drive=True,
         assumptions=[],
     ),
+    "C02": dict(
+        mcgen=[dict(model="MC_Cmp", quick="MC_Cmp_quick.cfg", thorough="MC_Cmp_thorough.cfg")],
+        profiles=["checked", "release"],
+        drive=True,
+    ),
+    "C03": dict(
+        mcgen=[dict(model="MC_Cmp", quick="MC_Cmp_quick.cfg", thorough="MC_Cmp_thorough.cfg")],
+        drive=True,
+    ),
     "C06": dict(
         mcgen=[dict(model="MC_Round", quick="MC_Round_quick.cfg", thorough="MC_Round_thorough.cfg")],
         drive=True,
